@@ -38,7 +38,7 @@ def scope(tier, seed):
          'C': 'representatives of K(3) with labels over {p} (one atom) x all 100 formulas size<=1',
          'D': 'size-3 formulas over {p,q}: block(s) of %d x 82 representatives of K(<=2)' % NB3}
     if tier == 'thorough':
-        d['D'] = 'all 20048 size-3 formulas over {p,q} x 82 representatives of K(<=2)'
+        d['D'] = 'half (by seed parity) of the 20048 size-3 formulas over {p,q} x 82 representatives of K(<=2)'
         d['E'] = '3836 representatives of K(3) x a seed-indexed sixth (112) of the 672 size-2 formulas over {p,q}'
     return d
 
@@ -73,7 +73,8 @@ def plan(tier, seed):
     else:
         for i in range(82):
             for b in range(8):
-                sh.append(['D', i, i + 1, [x for x in range(NB3) if x % 8 == b]])
+                if b % 2 == seed % 2:
+                    sh.append(['D', i, i + 1, [x for x in range(NB3) if x % 8 == b]])
         for lo, hi in chunks(3836, 12):
             sh.append(['E', lo, hi])
     return sh
